@@ -19,6 +19,7 @@ SUBS = [
     dict(name="carrysweep", quick=dict(cases=6, shards=1), thorough=dict(cases=12, shards=4)),
     dict(name="huge", quick=dict(cases=40, shards=1), thorough=dict(cases=8, shards=3)),
     dict(name="far", quick=dict(cases=1, shards=2), thorough=dict(cases=3, shards=4)),
+    dict(name="far64", thorough=dict(cases=1, shards=3)),
 ]
 LIB = {"crypto_aes.c", "crypto_aes_aesni.c", "crypto_aesctr.c", "crypto_aesctr_aesni.c", "cpusupport_x86_aesni.c",
        "insecure_memzero.c", "warnp.c"}
